@@ -153,17 +153,28 @@ impl MoveGen {
         for legals in &mut self.moves {
             legals.moves -= mask;
         }
+
+        // an emptied entry would end the iteration early and hide the entries behind it
+        self.set_mask(self.mask);
     }
 
     /// Never, ever, iterate this move
     pub fn remove_move(&mut self, chess_move: ChessMove) -> bool {
+        let mut removed = false;
         for x in 0..self.moves.len() {
-            if self.moves[x].src == chess_move.source {
+            // a pawn may own two entries (ordinary moves and the en-passant capture)
+            if self.moves[x].src == chess_move.source && self.moves[x].moves.contains(chess_move.dest) {
                 self.moves[x].moves -= chess_move.dest;
-                return true;
+                removed = true;
+                break;
             }
         }
-        false
+
+        if removed {
+            // an emptied entry would end the iteration early and hide the entries behind it
+            self.set_mask(self.mask);
+        }
+        removed
     }
 
     pub fn set_mask(&mut self, mask: BitBoard) {
